@@ -9,7 +9,7 @@
      inside the critical section, indexed by the lock holder's pc,
    - expunged is final except for the lock holder's Unexpunge_cas.
 
-   Method: an invariant [Inv] of configurations, shown for [init_config] and
+   Method: an invariant [Inv] of configurations, shown for [init_config_z] and
    preserved by every [step]; the case analysis over the labels is done once
    per aspect on [step_frame] (the sf_ lemmas), the assembly on [step]. *)
 From Typ Require Import SyncMap.Model.
@@ -272,7 +272,7 @@ Proof. unfold in_cs, cs_class. intros Hp ->. destruct p; simplify_eq/=; reflexiv
    leaves mu, dirty, misses, read alone and changes no expunged entry *)
 Lemma sf_free t i f ch i' o :
   frame_ok f -> in_cs f = false -> step_frame t i f ch = Some (Ok (i', o)) ->
-  (i_mu i = None /\ i' = Inst (i_st i) (Some t) (i_ver i) /\ exists f', o = Continue f' /\ cs_class f' = CsPlain)
+  (i_mu i = None /\ i' = Inst (i_st i) (Some t) (i_ver i) (i_zs i) /\ exists f', o = Continue f' /\ cs_class f' = CsPlain)
   \/ (i_mu i' = i_mu i /\ rely (i_st i) (i_st i') /\ out_free o).
 Proof.
   intros [He Hst Hdel Hpost] Hcs H. unfold step_frame in H. unfold in_cs, cs_class in Hcs.
@@ -1286,9 +1286,9 @@ Qed.
 Lemma WF_empty : WF empty_mstate.
 Proof. split; [apply WF_core_empty|]. constructor; cbn; [discriminate|reflexivity]. Qed.
 
-Lemma init_top n progs t f : top_frame (init_config n progs) t = Some f -> exists c, f = new_frame c.
+Lemma init_top_z zs progs t f : top_frame (init_config_z zs progs) t = Some f -> exists c, f = new_frame c.
 Proof.
-  unfold top_frame, init_config. cbn. rewrite nth_error_map.
+  unfold top_frame, init_config_z. cbn. rewrite nth_error_map.
   destruct (nth_error progs t) as [p|]; [|discriminate]. cbn. unfold next_call. cbn.
   destruct p as [|c p]; cbn; [discriminate|]. intros [= <-]. eauto.
 Qed.
@@ -1296,12 +1296,12 @@ Qed.
 Lemma in_cs_new c : in_cs (new_frame c) = false.
 Proof. destruct c; reflexivity. Qed.
 
-Theorem Inv_init n progs : Inv (init_config n progs).
+Theorem Inv_init_z zs progs : Inv (init_config_z zs progs).
 Proof.
   constructor.
-  - intros t f H. apply init_top in H as [c ->]. apply frame_ok_new.
-  - intros j i H. cbn in H. apply nth_error_In, repeat_spec in H. subst i. split.
-    + intros t. cbn. split; [discriminate|]. intros (f & H1 & _ & H3). apply init_top in H1 as [c ->].
+  - intros t f H. apply init_top_z in H as [c ->]. apply frame_ok_new.
+  - intros j i H. cbn in H. rewrite nth_error_map in H. destruct (nth_error zs j) as [z|]; [|discriminate]. injection H as <-. split.
+    + intros t. cbn. split; [discriminate|]. intros (f & H1 & _ & H3). apply init_top_z in H1 as [c ->].
       rewrite in_cs_new in H3. discriminate.
     + cbn. apply WF_empty.
 Qed.
@@ -1312,24 +1312,24 @@ Proof.
   apply IH. destruct (step c t ch) as [c'|] eqn:E; cbn; [eapply Inv_step; eauto|exact HI].
 Qed.
 
-Theorem Inv_reachable n progs sched : Inv (run_schedule (init_config n progs) sched).
-Proof. apply Inv_run, Inv_init. Qed.
+Theorem Inv_reachable_z zs progs sched : Inv (run_schedule (init_config_z zs progs) sched).
+Proof. apply Inv_run, Inv_init_z. Qed.
 
 (* ------------------------------------------------------------------ *)
 (* 1. lock discipline / mutual exclusion of m.mu                      *)
 (* ------------------------------------------------------------------ *)
 (* mu is held by t iff t is between the step after its *_lock and its *_unlock on that instance *)
-Theorem mu_held_iff_in_cs n progs sched j i t :
-  let c := run_schedule (init_config n progs) sched in
+Theorem mu_held_iff_in_cs_z zs progs sched j i t :
+  let c := run_schedule (init_config_z zs progs) sched in
   nth_error (c_insts c) j = Some i -> (i_mu i = Some t <-> holder c j t).
-Proof. intros c H. apply (inv_insts c (Inv_reachable n progs sched) j i H). Qed.
+Proof. intros c H. apply (inv_insts c (Inv_reachable_z zs progs sched) j i H). Qed.
 
 (* at most one thread is inside the critical section of an instance *)
-Theorem mutual_exclusion n progs sched j i t1 t2 :
-  let c := run_schedule (init_config n progs) sched in
+Theorem mutual_exclusion_z zs progs sched j i t1 t2 :
+  let c := run_schedule (init_config_z zs progs) sched in
   nth_error (c_insts c) j = Some i -> holder c j t1 -> holder c j t2 -> t1 = t2.
 Proof.
-  intros c H H1 H2. destruct (inv_insts c (Inv_reachable n progs sched) j i H) as [Hm _].
+  intros c H H1 H2. destruct (inv_insts c (Inv_reachable_z zs progs sched) j i H) as [Hm _].
   apply Hm in H1, H2. congruence.
 Qed.
 
@@ -1369,8 +1369,8 @@ Qed.
 (* every step that changes dirty, misses, read.m or read.amended of an instance
    (or the expunged status of an entry, or allocates an entry) is taken by the
    thread that holds its mu; the other threads can only acquire the free lock *)
-Theorem lock_discipline n progs sched t ch c' j i i' :
-  let c := run_schedule (init_config n progs) sched in
+Theorem lock_discipline_z zs progs sched t ch c' j i i' :
+  let c := run_schedule (init_config_z zs progs) sched in
   step c t ch = Some c' -> nth_error (c_insts c) j = Some i -> nth_error (c_insts c') j = Some i' ->
   i_mu i <> Some t ->
   dirty (i_st i') = dirty (i_st i) /\ misses (i_st i') = misses (i_st i) /\
@@ -1380,7 +1380,7 @@ Theorem lock_discipline n progs sched t ch c' j i i' :
   (i_mu i' = i_mu i \/ (i_mu i = None /\ i_mu i' = Some t)).
 Proof.
   intros c H Hi Hi' Hmu.
-  destruct (step_rely c t ch c' j i i' (Inv_reachable n progs sched) H Hi Hi' Hmu) as [[[Hn Hr Ha Hd He] Hm] Hx].
+  destruct (step_rely c t ch c' j i i' (Inv_reachable_z zs progs sched) H Hi Hi' Hmu) as [[[Hn Hr Ha Hd He] Hm] Hx].
   repeat split; auto.
   - intros E. specialize (He e). unfold is_exp in He. rewrite E in He. destruct (get_ent (i_st i) e); congruence.
   - intros E. specialize (He e). unfold is_exp in He. rewrite E in He. destruct (get_ent (i_st i') e); congruence.
@@ -1389,29 +1389,29 @@ Qed.
 (* ------------------------------------------------------------------ *)
 (* 3. the structural invariant                                        *)
 (* ------------------------------------------------------------------ *)
-Theorem structure_lock_free n progs sched j i :
-  let c := run_schedule (init_config n progs) sched in
+Theorem structure_lock_free_z zs progs sched j i :
+  let c := run_schedule (init_config_z zs progs) sched in
   nth_error (c_insts c) j = Some i -> i_mu i = None -> WF (i_st i).
 Proof.
-  intros c H Hmu. destruct (inv_insts c (Inv_reachable n progs sched) j i H) as [_ Hw]. rewrite Hmu in Hw. exact Hw.
+  intros c H Hmu. destruct (inv_insts c (Inv_reachable_z zs progs sched) j i H) as [_ Hw]. rewrite Hmu in Hw. exact Hw.
 Qed.
 
-Theorem structure_locked n progs sched j i t :
-  let c := run_schedule (init_config n progs) sched in
+Theorem structure_locked_z zs progs sched j i t :
+  let c := run_schedule (init_config_z zs progs) sched in
   nth_error (c_insts c) j = Some i -> i_mu i = Some t ->
   exists f, top_frame c t = Some f /\ call_inst (f_call f) = j /\ in_cs f = true /\ WFL (i_st i) f.
 Proof.
-  intros c H Hmu. destruct (inv_insts c (Inv_reachable n progs sched) j i H) as [Hm Hw]. rewrite Hmu in Hw.
+  intros c H Hmu. destruct (inv_insts c (Inv_reachable_z zs progs sched) j i H) as [Hm Hw]. rewrite Hmu in Hw.
   apply Hm in Hmu as (f & H1 & H2 & H3). exists f. auto.
 Qed.
 
-Theorem structure_always n progs sched j i :
-  let c := run_schedule (init_config n progs) sched in
+Theorem structure_always_z zs progs sched j i :
+  let c := run_schedule (init_config_z zs progs) sched in
   nth_error (c_insts c) j = Some i -> WF_core (i_st i).
 Proof.
   intros c H. destruct (i_mu i) as [t|] eqn:Hmu.
-  - destruct (structure_locked n progs sched j i t H Hmu) as (f & _ & _ & _ & [Hc _]). exact Hc.
-  - apply (structure_lock_free n progs sched j i H Hmu).
+  - destruct (structure_locked_z zs progs sched j i t H Hmu) as (f & _ & _ & _ & [Hc _]). exact Hc.
+  - apply (structure_lock_free_z zs progs sched j i H Hmu).
 Qed.
 
 (* expunged is final except for the lock holder's Unexpunge_cas *)
@@ -1442,13 +1442,13 @@ Proof.
   - rewrite E in Hi'. assert (i' = i) by congruence. subst. congruence.
 Qed.
 
-Theorem expunged_final n progs sched t ch c' j i i' e :
-  let c := run_schedule (init_config n progs) sched in
+Theorem expunged_final_z zs progs sched t ch c' j i i' e :
+  let c := run_schedule (init_config_z zs progs) sched in
   step c t ch = Some c' -> nth_error (c_insts c) j = Some i -> nth_error (c_insts c') j = Some i' ->
   get_ent (i_st i) e = PExpunged -> get_ent (i_st i') e <> PExpunged ->
   i_mu i = Some t /\ exists f, top_frame c t = Some f /\ call_inst (f_call f) = j /\ f_pc f = Unexpunge_cas /\ f_e f = Some e.
 Proof.
-  intros c H Hi Hi' H1 H2. eapply step_exp_final; eauto using Inv_reachable.
+  intros c H Hi Hi' H1 H2. eapply step_exp_final; eauto using Inv_reachable_z.
   - unfold is_exp. rewrite H1. reflexivity.
   - unfold is_exp. destruct (get_ent (i_st i') e); congruence.
 Qed.
@@ -1544,7 +1544,7 @@ Proof.
   - destruct o; [apply Hfo|exact I|congruence].
 Qed.
 
-Lemma init_nopost n progs : Forall (Forall nopost) progs -> calls_nopost (init_config n progs).
+Lemma init_nopost_z zs progs : Forall (Forall nopost) progs -> calls_nopost (init_config_z zs progs).
 Proof.
   intros H t th. cbn. rewrite nth_error_map. destruct (nth_error progs t) as [p|] eqn:E; [|discriminate].
   cbn. intros [= <-]. apply next_call_nopost. rewrite Forall_forall in H. apply H. eapply nth_error_In, E.
@@ -1558,6 +1558,26 @@ Proof.
   destruct (step_nopost c t ch c' HI HN E). apply IH; eauto using Inv_step.
 Qed.
 
+Theorem no_panic_z zs progs sched :
+  Forall (Forall nopost) progs -> c_panicked (run_schedule (init_config_z zs progs) sched) = false.
+Proof. intros H. apply run_nopost; [apply Inv_init_z|apply init_nopost_z, H|reflexivity]. Qed.
+
+(* ---- the same for [init_config n] (every instance an ordinary Map) ---- *)
+Lemma init_config_eq n progs : init_config n progs = init_config_z (repeat false n) progs.
+Proof. unfold init_config, init_config_z. f_equal. induction n as [|n IH]; cbn; [reflexivity|]. rewrite IH. reflexivity. Qed.
+
+Lemma init_top n progs t f : top_frame (init_config n progs) t = Some f -> exists c, f = new_frame c.
+Proof. rewrite init_config_eq. apply init_top_z. Qed.
+Theorem Inv_init n progs : Inv (init_config n progs).
+Proof. rewrite init_config_eq. apply Inv_init_z. Qed.
+Theorem Inv_reachable n progs sched : Inv (run_schedule (init_config n progs) sched).
+Proof. rewrite init_config_eq. apply Inv_reachable_z. Qed.
+Theorem mutual_exclusion n progs sched j i t1 t2 :
+  let c := run_schedule (init_config n progs) sched in
+  nth_error (c_insts c) j = Some i -> holder c j t1 -> holder c j t2 -> t1 = t2.
+Proof. cbv zeta. rewrite init_config_eq. apply mutual_exclusion_z. Qed.
+Lemma init_nopost n progs : Forall (Forall nopost) progs -> calls_nopost (init_config n progs).
+Proof. rewrite init_config_eq. apply init_nopost_z. Qed.
 Theorem no_panic n progs sched :
   Forall (Forall nopost) progs -> c_panicked (run_schedule (init_config n progs) sched) = false.
-Proof. intros H. apply run_nopost; [apply Inv_init|apply init_nopost, H|reflexivity]. Qed.
+Proof. rewrite init_config_eq. apply no_panic_z. Qed.
